@@ -13,7 +13,7 @@ from vcgen import methods
 def run(chk):
     chk.level = "proof"
     from props import backend_conformance
-    backend_conformance.run(chk, "C01", names=("block_diag", "kron", "concat", "diag", "canonical", "eye", "cast", "expand", "permute", "moveaxis", "reshape", "conj", "where", "roll", "stack", "zeros_like", "ones_like", "promote_types"))
+    backend_conformance.run(chk, "C01", names=("block_diag", "kron", "concat", "diag", "canonical", "eye", "cast", "expand", "permute", "moveaxis", "reshape", "conj", "where", "roll", "stack", "zeros_like", "ones_like", "promote_types", "zeros", "ones"))
     chk.assume("the 1e-6 relative rounding error of the float computation is out of reach: exact equality over C is proved")
     # combinators: every rule of dot/add/mul/kron/kronsum/transpose/adjoint keeps M(r) = the matrix expression ("any nesting depth":
     # each application is one use of the contract); same obligations as C03/C02, M and shape clauses
